@@ -9,9 +9,9 @@ SCRIPT := <puller> <comp none|zstd> <fmt beve|raw> <open ok|err|cut> <verify ok|
           <dest old|none|dir> <stop -|N> <dec -|err|H> wire <resp>…
   puller := file | bevezst | beve | trailer | fileasync | verifiedasync | trailerasync
   resp   := c:<H>:<0|1>  (chunk body, last flag) | e (error response) | x (connection cut)
-  dec    := what the zstd decoder makes of the complete wire bytes (recorded by the harness with the
-            zstd crate; `-` when nothing is decoded), `dest dir` = destination is a non-empty directory
-            (rename must fail)
+  dec    := what the zstd decoder makes of the bytes delivered before the stream ends or breaks
+            (recorded by the harness with the zstd crate; `err` = not a whole frame, `-` = not compressed),
+            `dest dir` = destination is a non-empty directory (rename must fail)
 
 script <i> SCRIPT                 -> <i> ret <ok|err> dest <same|L:FNV> tmp <0|1> [seen <L:FNV> trailer <H>]
 trace <i> SCRIPT :: <sys>…        -> <i> trace <accept|reject@pos> <match|expected:<sys>…>
